@@ -101,5 +101,5 @@ Inv == MachineOk(m) /\ CollectorsOk(m) /\ (m.phase # "gen" => ExtOk(m))
 NProg(k) == IF k = 6 THEN 3 ELSE 2
 Emit == m.phase = "done" /\ m.status \in {"done", "exc"} =>
           PrintT(ToJson([sc |-> sc, prog |-> SubSeq(m.prog, 1, NProg(sc[2])), q |-> m.q, qv |-> m.qv, ans |-> m.ans, status |-> m.status,
-                         ball |-> m.ball, out |-> m.out, diffrz |-> m.diffrz, steps |-> m.steps]))
+                         ball |-> m.ball, balts |-> m.balts, out |-> m.out, diffrz |-> m.diffrz, steps |-> m.steps]))
 =============================================================================
